@@ -376,7 +376,7 @@ pub fn run(ctx: &Ctx) {
         Op::Tick(5),
         Op::Tick(12),
     ];
-    let depth: u32 = ctx.tier.pick(5, 6);
+    let depth: u32 = ctx.tier.pick(6, 7);
     let total = (alphabet.len() as u64).pow(depth);
     ctx.par_range_chunked(total, 4096, |_, mut i| {
         let mut ops = Vec::with_capacity(depth as usize);
@@ -391,7 +391,7 @@ pub fn run(ctx: &Ctx) {
     ctx.subspace(&format!("table histories: all sequences of length {} over an 11-op alphabet", depth), total, true);
 
     // ---- (b) proptest histories
-    let nh: u32 = ctx.tier.pick(6_000, 150_000);
+    let nh: u32 = ctx.tier.pick(40_000, 400_000);
     ctx.proptest(
         "pt-table",
         nh,
